@@ -125,6 +125,12 @@ def errStatus (e : Err) : Nat :=
   | .num n => n
   | .junk => 0          -- outside the envelope (see `EnvOK` in Props)
 
+/-- "The status of the first error carrying one, 500 if none does", stated with `find?`. -/
+def firstErrorStatus (es : List Err) : Nat :=
+  match es.find? (fun e => e.status != .empty) with
+  | some e => errStatus e
+  | none => 500
+
 /-! ### status of sending a completed resource of type `t` as primary data -/
 
 def attrError (a : String × AttrOut) : Option Err :=
